@@ -244,6 +244,17 @@ def conclude(prop, tier, seed, level, total, viols, t0, rule, min_obs=None, extr
         if p != prop:
             continue
         by_key.setdefault(key, []).append((msg, case, log))
+    # a pairwise fault plan whose violation class already shows with one of its faults alone is
+    # the same finding: fold "class@A+B" into "class@A" (or "class@B") when that key exists
+    for key in sorted(by_key):
+        if "@" not in key or "+" not in key.split("@", 1)[1]:
+            continue
+        cls, plan = key.split("@", 1)
+        for single in plan.split("+"):
+            tgt = "%s@%s" % (cls, single)
+            if tgt in by_key and tgt != key:
+                by_key[tgt].extend(by_key.pop(key))
+                break
     rc = 0
     nviol = 0
     os.makedirs(os.path.join(VERIF, "replays", prop), exist_ok=True)
